@@ -18,9 +18,9 @@ var (
 	c12Symbols = []string{"a", "b.json", ".", "..", "c%20d", "é", "UP", "p+q", "~t", "m%2541n"}
 	c12Files   = []string{"b.json", "c%20d.json", "é.json", "UP.JSON", "r%2520s.v2.json"}
 	c12BasesQ  = []string{"file:///w/a/root.json", "file:///root.json", "file:///w/a/b/c/root.json", "http://h.example/d/e.json",
-		"http://h.example:8080/x/y/z.json", "https://s.example/spec.json", "https://s.example/a/b/spec.json"}
+		"http://h.example:8080/x/y/z.json", "https://s.example/spec.json", "https://s.example/a/b/spec.json", "file:///w/v1/api"}
 	c12BasesT = append(append([]string{}, c12BasesQ...), "file:///w/sp%20ace/root.json", "file:///w/é/root.json", "http://h.example/a/../b/e.json",
-		"https://s.example:8443/a/b/c/d/spec.json", "file:///a/root.json", "http://127.0.0.1/r.json", "http://h.example/d.v2/e.json")
+		"https://s.example:8443/a/b/c/d/spec.json", "file:///a/root.json", "http://127.0.0.1/r.json", "http://h.example/d.v2/e.json", "http://h.example/v1/api")
 	c12Hosts = []string{"http://other.example/", "file:///"}
 	c12Frags = []string{"", "#/definitions/x", "#/a~1b/c%20d"}
 )
